@@ -104,7 +104,7 @@ impl GSrc {
         ev!("gsrc{} task spawned id={} mode={:?} limits=({lo},{hi}) scripted={scripted}", self.idx, self.id, self.mode);
     }
 
-    fn on_send(&mut self, node: &Node, snaps: &Snapshots, bytes: &[u8], now: u64) -> bool {
+    fn on_send(&mut self, node: &Node, snaps: &Snapshots, bytes: &[u8], now: u64, latest: bool) -> bool {
         let i = self.idx;
         let lim = self.cfg.poll_interval_limits;
         let (min, max) = (lim.min.as_log(), lim.max.as_log());
@@ -194,7 +194,10 @@ impl GSrc {
             measured: 0,
         });
         ev!("gsrc{i} send seq={seq} v{} marker={} poll={} t1={t1}", h.version, h.has_marker(), h.poll);
-        self.check_snapshot(snaps, "send");
+        if latest {
+            // (if the task went on to take an answer in the same instant the published state is one step ahead)
+            self.check_snapshot(snaps, "send");
+        }
         true
     }
 
@@ -222,7 +225,7 @@ impl GSrc {
     }
 
     /// judge what the task did with a datagram delivered at `at_ns` (client clock then: `t4`)
-    fn after_delivery(&mut self, snaps: &Snapshots, d: &Datagram<Meta>, delivered: bool, at_ns: u64, t4: u64) {
+    fn after_delivery(&mut self, snaps: &Snapshots, d: &Datagram<Meta>, delivered: bool, at_ns: u64, t4: u64, quiet: bool) {
         let i = self.idx;
         let new_meas = self.take_new();
         let bytes = &d.bytes[..d.bytes.len().min(1024)];
@@ -342,7 +345,10 @@ impl GSrc {
                 }
             }
         }
-        self.check_snapshot(snaps, "answer");
+        if quiet {
+            // (with a poll sent in the same instant the published state is already one step ahead)
+            self.check_snapshot(snaps, "answer");
+        }
     }
 
     fn on_msg(&mut self, msg: &shim::MsgForSystem, now: u64) {
@@ -404,6 +410,9 @@ pub async fn run(focus: &'static str, clean: bool) {
             s.drop_p = [0.1, 0.3, 0.6, 0.9][choose("cfg.srv.drop", 4) as usize];
             s.silence_p = [0.0, 0.03, 0.1][choose("cfg.srv.silence", 3) as usize];
         }
+        // the real task sleeps on tokio's timer wheel, which cannot hold deadlines beyond ~2 years
+        // (re-arming a Sleep 2^31 s ahead corrupts the wheel of tokio 1.5x under a paused clock)
+        s.max_poll_request = 20;
         if s.is_byz() {
             s.echo_marker = chance("cfg.byz.echo", 0.4);
             s.speaks_v5 = !chance("cfg.byz.v4only", 0.3);
@@ -478,41 +487,48 @@ pub async fn run(focus: &'static str, clean: bool) {
         }
         // ---- what the tasks did ------------------------------------------------
         let mut progressed = false;
+        macro_rules! handle_outbound {
+            ($o:expr, $latest:expr) => {{
+                let o: shim::Outbound = $o;
+                progressed = true;
+                ops += 1;
+                let at = (o.at - exec::start_instant()).as_nanos() as u64;
+                if at != now {
+                    simkit::abort(format!("w1c glue: datagram sent at {at} seen at {now}"));
+                    return;
+                }
+                if let Some(i) = srcs.iter().position(|s| s.peer == o.peer) {
+                    if srcs[i].on_send(&nodes[0], &snaps, &o.bytes, now, $latest) {
+                        let j = srcs[i].srv;
+                        let seq = srcs[i].model.next_seq - 1;
+                        net.send(
+                            now,
+                            net_id_of_src(i),
+                            j as u32,
+                            o.bytes,
+                            Meta { src: i, srv: j, req_seq: seq, is_request: true, wellformed: true, honest_ts: false, authenticated: false, note: "poll" },
+                        );
+                        if chance("env.client-jump", jumps_p) {
+                            let fixed = [3i64 << 20, 7 << 32, -(5i64 << 30), 3600 << 32][choose("env.cjump", 4) as usize];
+                            jump_at.push((now + choose("env.cjump.at", 1_500_000_000), fixed));
+                        }
+                        if chance("env.replay", replay_p) && !srcs[i].history.is_empty() {
+                            let hlen = srcs[i].history.len();
+                            let k = if chance("env.replay.old", 0.4) { choose("env.replay.idx", hlen as u64) as usize } else { hlen - 1 };
+                            let (bytes, mut meta) = srcs[i].history[k].clone();
+                            meta.note = "replay";
+                            fault("replay");
+                            net.inject(
+                                now + choose("env.replay.at", 6_000_000_000),
+                                Datagram { id: 0, from: j as u32, to: net_id_of_src(i), bytes, original: None, mutation: None, duplicate: true, sent_ns: now, meta },
+                            );
+                        }
+                    }
+                }
+            }};
+        }
         for o in shim::hub_take_outbox() {
-            progressed = true;
-            ops += 1;
-            let at = (o.at - exec::start_instant()).as_nanos() as u64;
-            if at != now {
-                simkit::abort(format!("w1c glue: datagram sent at {at} seen at {now}"));
-                return;
-            }
-            let Some(i) = srcs.iter().position(|s| s.peer == o.peer) else { continue };
-            if srcs[i].on_send(&nodes[0], &snaps, &o.bytes, now) {
-                let j = srcs[i].srv;
-                let seq = srcs[i].model.next_seq - 1;
-                net.send(
-                    now,
-                    net_id_of_src(i),
-                    j as u32,
-                    o.bytes,
-                    Meta { src: i, srv: j, req_seq: seq, is_request: true, wellformed: true, honest_ts: false, authenticated: false, note: "poll" },
-                );
-                if chance("env.client-jump", jumps_p) {
-                    let fixed = [3i64 << 20, 7 << 32, -(5i64 << 30), 3600 << 32][choose("env.cjump", 4) as usize];
-                    jump_at.push((now + choose("env.cjump.at", 1_500_000_000), fixed));
-                }
-                if chance("env.replay", replay_p) && !srcs[i].history.is_empty() {
-                    let hlen = srcs[i].history.len();
-                    let k = if chance("env.replay.old", 0.4) { choose("env.replay.idx", hlen as u64) as usize } else { hlen - 1 };
-                    let (bytes, mut meta) = srcs[i].history[k].clone();
-                    meta.note = "replay";
-                    fault("replay");
-                    net.inject(
-                        now + choose("env.replay.at", 6_000_000_000),
-                        Datagram { id: 0, from: j as u32, to: net_id_of_src(i), bytes, original: None, mutation: None, duplicate: true, sent_ns: now, meta },
-                    );
-                }
-            }
+            handle_outbound!(o, true);
         }
         while let Ok(msg) = rx.try_recv() {
             progressed = true;
@@ -553,15 +569,33 @@ pub async fn run(focus: &'static str, clean: bool) {
                     Some(sock) if !srcs[i].ended => shim::hub_deliver(sock, d.bytes.clone()),
                     _ => false,
                 };
-                // let the task take and process it (same simulated instant), then look at what it did
+                // let the task take and process it (same simulated instant), then look at what it did.
+                // The task may instead re-arm first (its timer is due in the same instant and its select!
+                // picks that branch): the poll opens a fresh socket and the datagram vanishes with the old one.
+                let consumed_before = shim::hub_last_consumed_seq();
                 if delivered {
                     tokio::select! {
                         biased;
                         _ = consumed.notified() => {}
+                        _ = notify.notified() => {}
                         _ = tokio::time::sleep(std::time::Duration::from_millis(1)) => { probe("glue-settle-timeout"); }
                     }
                 }
-                srcs[i].after_delivery(&snaps, &d, delivered, now, t4);
+                let consumed_seq = shim::hub_last_consumed_seq();
+                let taken = delivered && consumed_seq != consumed_before;
+                if delivered && !taken {
+                    probe("glue-datagram-lost-with-closed-socket");
+                }
+                // polls the task sent before it took the datagram are judged first
+                let (earlier, later): (Vec<_>, Vec<_>) = shim::hub_take_outbox().into_iter().partition(|o| taken && o.seq < consumed_seq);
+                for o in earlier {
+                    handle_outbound!(o, false);
+                }
+                let quiet = later.is_empty();
+                srcs[i].after_delivery(&snaps, &d, taken, now, t4, quiet);
+                for o in later {
+                    handle_outbound!(o, true);
+                }
                 if d.meta.note != "replay" {
                     let hst = &mut srcs[i].history;
                     if hst.len() >= 12 {
